@@ -36,7 +36,33 @@ TQ(nu) == CASE nu = 1 -> <<1000000, 1839473, 6313752, 12706205, 63656741>>
             [] nu = 4 -> <<740697, 1142465, 2131847, 2776445, 4604095>>
             [] nu = 5 -> <<726687, 1111299, 2015048, 2570582, 4032143>>
             [] nu = 6 -> <<717558, 1091333, 1943180, 2446912, 3707428>>
+            [] nu = 8 -> <<706387, 1067259, 1859548, 2306004, 3355387>>
+            [] nu = 10 -> <<699812, 1053274, 1812461, 2228139, 3169273>>
+            [] nu = 12 -> <<695483, 1044138, 1782288, 2178813, 3054540>>
+            [] nu = 15 -> <<691197, 1035150, 1753050, 2131450, 2946713>>
+            [] nu = 20 -> <<686954, 1026308, 1724718, 2085963, 2845340>>
+            [] nu = 24 -> <<684850, 1021941, 1710882, 2063899, 2796940>>
+            [] nu = 30 -> <<682756, 1017611, 1697261, 2042272, 2749996>>
+            [] nu = 31 -> <<682486, 1017054, 1695519, 2039513, 2744042>>
+            [] nu = 32 -> <<682234, 1016533, 1693889, 2036933, 2738481>>
+            [] nu = 40 -> <<680673, 1013315, 1683851, 2021075, 2704459>>
+            [] nu = 50 -> <<679428, 1010755, 1675905, 2008559, 2677793>>
+            [] nu = 60 -> <<678601, 1009056, 1670649, 2000298, 2660283>>
+            [] nu = 80 -> <<677569, 1006939, 1664125, 1990063, 2638691>>
+            [] nu = 100 -> <<676951, 1005673, 1660234, 1983972, 2625891>>
+            [] nu = 120 -> <<676540, 1004831, 1657651, 1979930, 2617421>>
+            [] nu = 200 -> <<675718, 1003151, 1652508, 1971896, 2600634>>
+            [] nu = 300 -> <<675308, 1002313, 1649949, 1967903, 2592316>>
+            [] nu = 500 -> <<674981, 1001644, 1647907, 1964720, 2585698>>
+            [] nu = 1000 -> <<674735, 1001143, 1646379, 1962339, 2580755>>
             [] OTHER -> <<>>
+\* degrees of freedom beyond the lattice: reached by replicating the rows of an instance (ReplLaw)
+BigNus == {8, 10, 12, 15, 20, 24, 30, 31, 32, 40, 50, 60, 80, 100, 120, 200, 300, 500, 1000}
+\* the quantile decreases with the degrees of freedom and stays above the normal quantile
+NormalQ == <<674490, 1000990, 1644854, 1959964, 2575829>>
+TQDecreasing == \A i \in 1..5 :
+   /\ \A n1, n2 \in (1..6) \cup BigNus : n1 < n2 => TQ(n1)[i] > TQ(n2)[i]
+   /\ \A n \in (1..6) \cup BigNus : TQ(n)[i] > NormalQ[i]
 \* exact check of the table row nu = 2 against the closed form, to 1e-6 relative:
 \*   |tq^2 (1 - p^2) - 2 p^2 10^12| small; in units that fit 32 bit: use p*1000 and tq/1000
 TQ2Consistent == \A i \in 1..5 :
@@ -104,6 +130,47 @@ WeightScaleLaw(f, x, w, a, c, r0, t) ==
        /\ e2.rr = t * t * e1.rr
        /\ e2.detH = IPow(t, 2 * K) * e1.detH
        /\ \A i, j \in 1..K : e2.adj[i][j] = IPow(t, 2 * K - 2) * e1.adj[i][j]
+
+(* Scaling the COEFFICIENTS c by t (y = Phi t c + r0) keeps the point stationary and multiplies the  *)
+(* nonlinear columns W D_k c of H by t: with S = diag(1,..,1,t,..,t), H' = H S, hence                 *)
+(* (H'^T H')^-1 = S^-1 (H^T H)^-1 S^-1: chi2, correlation and band radius do not change, Cov_ij is    *)
+(* divided by S_i S_j.  The replay uses t = 2^30 (f64) / 2^12 (f32): a badly SCALED, perfectly         *)
+(* conditioned-after-scaling H^T H whose singular values spread over more than 1/machine-epsilon.     *)
+CoeffScaleLaw(f, x, w, a, c, r0, t) ==
+  LET K == f.M + f.P
+      c2 == [j \in 1..Len(c) |-> t * c[j]]
+      e1 == StatEval(f, x, w, a, c, r0)
+      e2 == StatEval(f, x, w, a, c2, r0)
+      S(i) == IF i <= f.M THEN 1 ELSE t
+      tp == IPow(t, 2 * f.P)
+  IN (e1.lvl = 1 /\ e2.lvl = 1 /\ SatMul(tp, Abs(e1.detH)) < Limit /\ SatMul(tp, MaxAbs(e1.adj)) < Limit
+      /\ SatMul(t * t, MaxAbs(e2.adj)) < Limit /\ SatMul(tp, MaxAbsV(e1.quad)) < Limit) =>
+       /\ Stationary(f, x, w, a, c2, r0)
+       /\ e2.rr = e1.rr
+       /\ e2.detH = tp * e1.detH
+       /\ \A i, j \in 1..K : e2.adj[i][j] * S(i) * S(j) = tp * e1.adj[i][j]
+       /\ \A i \in 1..Len(x) : e2.quad[i] = tp * e1.quad[i]
+
+(* Replicating every row K times (same x, y, weight) keeps the point stationary, multiplies |rw|^2   *)
+(* and the Gram matrix Hw^T Hw by K and raises the degrees of freedom to K N - M - P: Cov becomes     *)
+(* |rw|^2 adj / ((K N - M - P) det) - the K cancels - and the quantile is taken at the larger nu.     *)
+(* The replay uses it to reach degrees of freedom up to 1000 with exactly known statistics.          *)
+Repl(s, K) == [i \in 1..(K * Len(s)) |-> s[((i - 1) % Len(s)) + 1]]
+ReplNu(f, x, K) == K * Len(x) - f.M - f.P
+ReplLaw(f, x, w, a, c, r0, K) ==
+  LET w1 == IF w = <<>> THEN [i \in 1..Len(x) |-> 1] ELSE w
+      Hw == RowScale(w1, HMat(f, x, a, c))
+      rw == RowScaleV(w1, r0)
+      HwK == E(Repl(Hw, K))
+      rwK == E(Repl(rw, K))
+  IN (GramSafe(HwK) /\ SatMul(K * Len(x), SatMul(MaxAbs(HwK), MaxAbsV(rwK))) < Limit) =>
+       /\ \A i, j \in 1..(f.M + f.P) : Gram(HwK)[i][j] = K * Gram(Hw)[i][j]
+       /\ Dot(rwK, rwK) = K * Dot(rw, rw)
+       /\ (Stationary(f, x, w, a, c, r0) => \A j \in 1..(f.M + f.P) : Dot(Col(HwK, j), rwK) = 0)
+\* multipliers that land on a tabulated number of degrees of freedom (at most the smallest and the largest)
+ReplChoices(f, x) ==
+  LET all == {K \in 2..260 : ReplNu(f, x, K) \in BigNus}
+  IN IF all = {} THEN {} ELSE {CHOOSE K \in all : \A L \in all : K <= L, CHOOSE K \in all : \A L \in all : K >= L}
 
 (* ---------------- theorems about the definitions ---------------- *)
 CovSym(e) == e.lvl = 1 => \A i, j \in 1..Len(e.adj) : e.adj[i][j] = e.adj[j][i]
